@@ -328,7 +328,7 @@ def synthesis(chk, prog, degree=3):
                     intercepts={WMM + "::WMM.reset_coefficients": lambda i, a, k: None,
                                 WMM + "::geodetic2spherical": lambda i, a, k: (latp, a[1], r),
                                 "round": lambda i, a, k: a[0]})
-        obj = it.make_obj(WMM + "::WMM", degree=N, c=c.copy(), cd=cd.copy(), epoch=epoch, date_dec=date, frame="NED")
+        obj = it.make_obj(WMM + "::WMM", degree=N, c=c.copy(), cd=cd.copy(), epoch=epoch, date_dec=date, date=date, frame="NED")
         it.run(f, [latd, lond, h], {"date": None}, self_obj=obj)
         return obj, it
     holder = {}
@@ -442,6 +442,9 @@ def canaries(chk, prog):
 
 
 def run(chk, prog, tier):
+    # the epoch subtracted from the date and the coefficient tables come from the same, freshly selected file on every path (rule shared with C15)
+    from props.c15 import reload_rule
+    reload_rule(chk, prog)
     table_rule(chk, prog)
     index_rule(chk, prog)
     bounds_rule(chk, prog)
